@@ -59,6 +59,28 @@ def is_AT(t):
     return list_of(t) == "AT"
 
 
+def absorbed_copy_is_fresh(ctx):
+    """on every return path of newly_press, every copy of mapped_absorbed_keys is taken AFTER the pressed key was
+    forgotten from it (so the pressed key is never in the list is_supported is handed).  Used by C03-T1 to accept
+    the table !absorbed & (held | is_new); not an obligation of C08 itself -- with the specified table a stale copy
+    is harmless, because the pressed key's own absorbed status is never looked at."""
+    K = kt.KT(ctx)
+    np_ = ctx.body(NP)
+    k = T("param", 2, np_.dbg.get(2, ""))
+    seen = False
+    for fx in K.path_fx(np_):
+        if fx.tag != "fn" or fx.path.outcome[0] != "return":
+            continue
+        forget = [e.pos for e in fx.effects if e.kind == "RETAIN" and e.lst == "AB" and ktx.Analysis._retain_removes_key(e) == k]
+        copies = [i for i, e in enumerate(fx.path.events) if e.kind == "call" and method_name(e.a) in ("clone", "to_vec", "to_owned")
+                  and e.b and list_of(e.b[0]) == "AB"]
+        if copies:
+            seen = True
+            if not forget or min(copies) < forget[0]:
+                return False
+    return seen
+
+
 def run(ctx):
     ck = ctx.check
     K = kt.KT(ctx)
